@@ -132,6 +132,10 @@ func (e *Engine) wf(t types.Type, l []Term, next Term, cs *[]Term) {
 	case *types.Pointer:
 		// allocated objects are below the allocation counter; sub-object references are negative
 		*cs = append(*cs, Lt(e.allocID(l[0]), next))
+		if e.useAllocID {
+			// a non-nil pointer points into an allocated object
+			*cs = append(*cs, Implies(Not(Eq(l[0], IntLit(0))), Lt(IntLit(0), e.allocID(l[0]))))
+		}
 	case *types.Map, *types.Chan:
 		*cs = append(*cs, Le(IntLit(0), l[0]), Lt(l[0], next))
 	case *types.Struct:
@@ -692,6 +696,7 @@ func (e *Engine) mulUF(a, b Term) Term {
 	e.ctx.Axiom("mul_comm", "(forall ((x Int) (y Int)) (! (= (mul x y) (mul y x)) :pattern ((mul x y))))")
 	e.ctx.Axiom("mul_sign", "(forall ((x Int) (y Int)) (! (=> (and (<= 0 x) (<= 0 y)) (<= 0 (mul x y))) :pattern ((mul x y))))")
 	e.ctx.Axiom("mul_mono", "(forall ((x1 Int) (x2 Int) (y Int)) (! (=> (and (< x1 x2) (<= 0 y)) (<= (+ (mul x1 y) y) (mul x2 y))) :pattern ((mul x1 y) (mul x2 y))))")
+	e.ctx.Axiom("mul_succ", "(forall ((x1 Int) (x2 Int) (y Int)) (! (=> (= x2 (+ x1 1)) (= (mul x2 y) (+ (mul x1 y) y))) :pattern ((mul x1 y) (mul x2 y))))")
 	e.ctx.Axiom("mul_zero", "(forall ((y Int)) (! (= (mul 0 y) 0) :pattern ((mul 0 y))))")
 	e.ctx.Axiom("mul_eq", "(forall ((x1 Int) (x2 Int) (y Int)) (! (=> (= x1 x2) (= (mul x1 y) (mul x2 y))) :pattern ((mul x1 y) (mul x2 y))))")
 	return T(SInt, "(%s %s %s)", f, a.S, b.S)
